@@ -267,3 +267,6 @@ func runWitnesses[C any](t *testing.T, id string, check func(*Ctx, C) *Verdict, 
 		extra(c)
 	}
 }
+
+func jsonMarshal(v any) ([]byte, error)   { return json.Marshal(v) }
+func jsonUnmarshal(b []byte, v any) error { return json.Unmarshal(b, v) }
